@@ -47,6 +47,14 @@ Proof.
     + intros H. apply E3. unfold add_cand, log_msg, log_action. cbn [is_log actions set_actions set_cands]. constructor; [reflexivity|exact H].
 Qed.
 
+Lemma init_round (pr : profile) : round (init_state A cfg pr) = 0.
+Proof.
+  unfold init_state. cbv zeta. cbn [round set_eballots set_ballots].
+  match goal with |- round (fold_left ?f ?l ?s0) = 0 => change (round (fold_left f l s0) = round s0); generalize s0 end.
+  induction (pr_cands pr) as [|p pcs IH]; intros s; cbn [fold_left]; [reflexivity|]. rewrite IH.
+  unfold log_msg, log_action. cbn [is_log round set_actions set_cands]. reflexivity.
+Qed.
+
 Definition mk_ballots (l : list (Z * list Z)) : list (ballot A) :=
   flat_map (fun '(m, r) => match r with [] => [] | _ => [mkBallot (of_int A m) O (of_int A 1) (V0' A) r] end) l.
 
@@ -156,8 +164,8 @@ Proof.
 Qed.
 
 
-(* ---- seats are never over-committed (wigm, wigm-prf(-batch), scotland) ---- *)
-Definition seat_rule (r : rule) : Prop := r = RWigm \/ r = RWigmPrf \/ r = RScotland.
+(* ---- seats are never over-committed (every Gregory rule: wigm, wigm-prf(-batch), scotland, mpls, cfer(-batch)) ---- *)
+Definition seat_rule (r : rule) : Prop := r = RWigm \/ r = RWigmPrf \/ r = RScotland \/ r = RMpls \/ r = RCfer.
 
 Lemma pre2_init (pr : profile) : wf_profile pr ->
   Pre2 A S ZL (S * ballot_total pr) (zero_votes (init_state A cfg pr)).
@@ -176,10 +184,12 @@ Proof.
   set (Bv := S * ballot_total pr) in *.
   assert (Ht: triple est (@crashed A) (fun s0 => s0 = init_state A cfg pr) (count_cmd A cfg r)
                 (SeatsOK A S ZL cfg Bv) (SeatsOK A S ZL cfg Bv) (SeatsOK A S ZL cfg Bv)).
-  { unfold count_cmd. eapply t_seq with (M := Pre2 A S ZL Bv).
-    - apply t_do. intros s0 ->. exact (pre2_init pr Hwf).
+  { unfold count_cmd. eapply t_seq with (M := Pre3 A S ZL Bv).
+    - apply t_do. intros s0 ->. split; [exact (pre2_init pr Hwf)|]. unfold zero_votes. cbn [round set_cands]. apply init_round.
     - eapply t_seq.
-      + destruct Hr as [ -> | [ -> | -> ] ]; cbn [rule_cmd]; [apply wigm_seats|apply wigm_prf_seats|apply scotland_seats]; assumption.
+      + destruct Hr as [ -> | [ -> | [ -> | [ -> | -> ] ] ] ]; cbn [rule_cmd];
+        [eapply t_pre; [|apply wigm_seats]|eapply t_pre; [|apply wigm_prf_seats]|eapply t_pre; [|apply scotland_seats]|eapply t_pre; [|apply mpls_seats]|apply cfer_seats];
+        try assumption; intros s0 [Hs0 _]; exact Hs0.
       + apply t_do_nc. intros s0 [[H Hc] Hn] Hcf. split; [split; [apply gh_log; assumption|exact Hcf]|]. rewrite cands_log. exact Hn. }
   specialize (Ht fuel _ s k eq_refl He). destruct k; try (destruct Ht as [_ Hn]; exact Hn). congruence.
 Qed.
@@ -205,7 +215,7 @@ Theorem count_seats_every_snapshot r pr fuel s : seat_rule r -> wf_profile pr ->
 Proof.
   intros Hr Hwf Hnbt He.
   assert (Hfin: nlen (electeds A s) <= cf_nseats cfg) by (apply (count_seats r pr fuel s Next Hr Hwf Hnbt He); discriminate).
-  assert (Hnq: not_qpq r) by (destruct Hr as [ -> | [ -> | -> ] ]; exact I).
+  assert (Hnq: not_qpq r) by (destruct Hr as [ -> | [ -> | [ -> | [ -> | -> ] ] ] ]; exact I).
   destruct (count_forward A cfg r pr fuel s Hnq (proj1 Hwf) He) as (_ & Hall & _).
   eapply Forall_impl; [|exact Hall]. intros sn [_ Hf]. pose proof (fwdl_nel _ _ Hf) as Hle. rewrite nel_stl in Hle. unfold electeds in Hfin. lia.
 Qed.
